@@ -267,6 +267,34 @@ theorem minable_always (W : TxAbs → Prop) (U : Universe W) (pol : Policy) (mat
   obtain ⟨e, he, rfl⟩ := mem_txs.1 ht
   exact fl e he (hfresh e he)
 
+/-! ### composition with C13 (consensus accounting primitives) -/
+
+/-- the finality test used at admission (and in `Local` / `ValidSeq`) is C13's `IsFinalTx` evaluated on the
+lock time, the sequences, the next height and the median time past -/
+theorem finality_is_c13 (t : TxAbs) (h m : Nat) :
+    isFinal t h m = C13.Spec.isFinal t.lockTime t.seqs (h : Int) (m : Int) := isFinal_eq_c13 t h m
+
+/-- the sequence-lock test used at admission is C13's BIP68 `EvaluateSequenceLocks ∘ CalculateSequenceLocks`
+on the inputs' (sequence, height of the spent output — the next block for a pooled parent —, median time
+past of the block before it), enforced from version 2 -/
+theorem sequence_locks_are_c13 (c : Chain) (t : TxAbs) :
+    seqLocksOk c t =
+      C13.Spec.locksSatisfied (C13.Spec.sequenceLocks (decide (2 ≤ t.version)) (seqInputs c t)).1
+        (C13.Spec.sequenceLocks (decide (2 ≤ t.version)) (seqInputs c t)).2 (c.height + 1) c.mtp := rfl
+
+/-- … i.e. (version ≥ 2) every input is individually mature in BIP68's sense -/
+theorem sequence_locks_iff_inputs_mature (c : Chain) (t : TxAbs) (hv : 2 ≤ t.version) :
+    seqLocksOk c t = true ↔ ∀ i ∈ seqInputs c t, C13.Lemmas.inputMature i (c.height + 1) c.mtp :=
+  seqLocksOk_iff_mature c t hv
+
+/-- a sequence lock that is satisfied stays satisfied over a connected block that does not spend the
+transaction's inputs and does not lower the median time: BIP68 maturity is monotone, a pooled parent that
+gets mined is mined exactly at the height admission assumed, and an unconfirmed parent only admits a
+zero relative lock -/
+theorem sequence_locks_persist (c : Chain) (b : Block) (t : TxAbs) (hm : c.mtp ≤ b.mtp)
+    (hx : ∀ x ∈ t.ins, ∀ T ∈ b.txs, x ∉ T.ins) (h : seqLocksOk c t = true) :
+    seqLocksOk (c.connect b) t = true := seqLocksOk_connect hm hx h
+
 /-! ### policy arithmetic -/
 
 /-- `GetDustThreshold` reproduces the well-known thresholds (times minRelay/1000): P2PKH 546, P2SH 540,
